@@ -169,17 +169,48 @@ fn sparse_planes(w: usize, h: usize, src: &mut dyn FnMut() -> u8) -> (Vec<u8>, V
     (y, cb, cr)
 }
 
+/// Family 6: chroma planes whose samples *average* exactly 128 without being 128: values come in
+/// pairs 128 + k / 128 - k scattered over the plane (complementary colours in equal amounts). Sums,
+/// averages and other whole-plane statistics cannot tell these from colourless planes.
+fn balanced_planes(w: usize, h: usize, src: &mut dyn FnMut() -> u8) -> (Vec<u8>, Vec<u8>, Vec<u8>) {
+    let cw = (w + 1) / 2;
+    let ch = (h + 1) / 2;
+    let y: Vec<u8> = (0..w * h).map(|_| src()).collect();
+    let mut plane = |src: &mut dyn FnMut() -> u8| -> Vec<u8> {
+        let n = cw * ch;
+        let mut p = vec![128u8; n];
+        let mut idx: Vec<usize> = (0..n).collect();
+        // a cheap shuffle
+        for i in (1..n).rev() {
+            let j = (src() as usize * 256 + src() as usize) % (i + 1);
+            idx.swap(i, j);
+        }
+        for pair in idx.chunks(2) {
+            if pair.len() == 2 {
+                let k = 1 + src() % 127;
+                p[pair[0]] = 128 + k;
+                p[pair[1]] = 128 - k;
+            }
+        }
+        p
+    };
+    let cb = plane(src);
+    let cr = plane(src);
+    (y, cb, cr)
+}
+
 /// Plane content families. 0: random bytes; 1: extremes; 2: per-position-unique pattern so a
 /// shifted / mirrored / interpolated sample is always visible; 3: every plane gets its own
 /// independently chosen structured style (flat / repeated rows / repeated columns / ... ), e.g.
 /// flat luma over varying chroma. 4: see `repeating_planes`.
-pub const FAMILIES: u32 = 6;
+pub const FAMILIES: u32 = 7;
 pub fn planes(w: usize, h: usize, family: u32, src: &mut dyn FnMut() -> u8) -> (Vec<u8>, Vec<u8>, Vec<u8>) {
     let cw = (w + 1) / 2;
     let ch = (h + 1) / 2;
     match family {
         4 => repeating_planes(w, h, src),
         5 => sparse_planes(w, h, src),
+        6 => balanced_planes(w, h, src),
         0 | 1 | 2 => (fill_plane(w, h, family, 0, src), fill_plane(cw, ch, family, 1, src), fill_plane(cw, ch, family, 2, src)),
         _ => {
             let sy = [3u32, 4, 5, 6, 7, 3, 6, 0][(src() % 8) as usize];
@@ -269,7 +300,7 @@ fn grid_item(ctx_seed: u64, wmax: u64, i: u64, acc: &mut Acc) {
         acc.label_n(l, FAMILIES as u64);
     }
     if w == 7 && h == 3 {
-        acc.sample(|| json!({"w": w, "h": h, "families": ["hash bytes", "extremes", "position-unique", "structured planes", "repeating rows / groups / notable values", "uniform planes with a few deviating samples"]}));
+        acc.sample(|| json!({"w": w, "h": h, "families": ["hash bytes", "extremes", "position-unique", "structured planes", "repeating rows / groups / notable values", "uniform planes with a few deviating samples", "chroma balanced around 128"]}));
     }
 }
 
@@ -375,6 +406,56 @@ fn large_area_item(seed: u64, i: u64, acc: &mut Acc) {
     }
 }
 
+/// Calls in sequence on one thread with the *same three buffers* under different widths (w x h,
+/// h x w, ...: the plane lengths allow it), the same call again, another picture in between: the
+/// converter is a function of its arguments, whatever it was asked before.
+fn sequence_item(seed: u64, i: u64, acc: &mut Acc) {
+    let a = (i % 24 + 1) as usize;
+    let b = (i / 24 % 24 + 1) as usize;
+    let bytes = super::content_bytes(seed ^ (i << 8), a * b * 2 + 64);
+    let mut k = 0;
+    let mut src = || {
+        k += 1;
+        bytes[(k - 1) % bytes.len()]
+    };
+    let (y, cb, cr) = planes(a, b, (i % 3) as u32 * 2, &mut src);
+    // every width under which the same three buffers are a consistent picture
+    let mut widths: Vec<usize> = Vec::new();
+    for w in 1..=a * b {
+        if (a * b) % w == 0 {
+            let h = a * b / w;
+            if ((w + 1) / 2) * ((h + 1) / 2) == cb.len() {
+                widths.push(w);
+            }
+        }
+    }
+    let order: Vec<usize> = widths.iter().copied().chain(widths.iter().rev().copied()).collect();
+    for (n, w) in order.iter().enumerate() {
+        acc.count(n > 0);
+        if let Err(m) = check_picture(*w, &y, &cb, &cr) {
+            acc.fail(json!({"kind":"params","sequence":i}), format!("call {} of a sequence of calls with the same buffers under widths {:?}: {}", n, &order[..=n], m));
+            return;
+        }
+    }
+}
+
+/// Every width 1..=4200 with two rows (and every height 1..=4200 with two columns).
+fn sweep_item(seed: u64, i: u64, acc: &mut Acc) {
+    let n = (i / 2 + 1) as usize;
+    let (w, h) = if i % 2 == 0 { (n, 2 + n % 2) } else { (2 + n % 3, n) };
+    let bytes = super::content_bytes(seed ^ ((w as u64) << 20) ^ h as u64, 4096);
+    let mut k = 0;
+    let mut src = || {
+        k += 1;
+        bytes[(k - 1) % bytes.len()]
+    };
+    let (y, cb, cr) = planes(w, h, 2, &mut src);
+    acc.count(true);
+    if let Err(m) = check_picture_at(w, &y, &cb, &cr, (n % 4, (n / 4) % 4, (n / 16) % 4)) {
+        acc.fail(json!({"kind":"params","sweep":i}), m);
+    }
+}
+
 pub fn run(ctx: &Ctx) -> i32 {
     let (wmax, hmax) = ctx.tier.pick((64u64, 24u64), (200u64, 64u64));
     let seed = ctx.seed;
@@ -382,16 +463,18 @@ pub fn run(ctx: &Ctx) -> i32 {
     reports.push(exhaustive_suite(ctx, "size_grid", wmax * hmax, &move |i, acc| grid_item(seed, wmax, i, acc)));
     reports.push(exhaustive_suite(ctx, "extreme_aspect", 300, &move |i, acc| extreme_item(seed, i, acc)));
     reports.push(exhaustive_suite(ctx, "large_area", LARGE_AREA.len() as u64, &move |i, acc| large_area_item(seed, i, acc)));
+    reports.push(exhaustive_suite(ctx, "every_width_and_height_to_4200", 8400, &move |i, acc| sweep_item(seed, i, acc)));
+    reports.push(exhaustive_suite(ctx, "same_buffers_other_widths", 576, &move |i, acc| sequence_item(seed, i, acc)));
     let (cases, rw, rh) = ctx.tier.pick((100_000u64, 300i64, 120i64), (1_500_000u64, 700i64, 300i64));
     reports.push(tape_suite(ctx, "random_sizes", cases, 1600, &move |g| random_case(g, rw, rh)));
     let mut extra = Map::new();
-    extra.insert("grid".into(), json!(format!("every (w,h) in 1..={} x 1..={} x 6 content families", wmax, hmax)));
+    extra.insert("grid".into(), json!(format!("every (w,h) in 1..={} x 1..={} x 7 content families", wmax, hmax)));
     let exhaustive = false; // the property quantifies over all sizes; only the stated box is complete
     finish(
         ctx,
         reports,
         Summary {
-            rule: "size_grid enumerates every width x height in the stated box with six plane-content families (uniform planes with one to three deviating samples, mostly in the last or first column / row; hash bytes, extremes, per-position-unique pattern, independently structured planes, and planes assembled from a few repeated row templates over one-to-three-value alphabets so that equal neighbouring groups / rows / planes and special values occur all the time); random_sizes draws size and content from the proptest tape. Oracle: per-pixel BT.601 integer model of luma (x,y) with chroma (x/2,y/2), output length 4wh, no panic; empty picture -> empty output. Non-trivial = width not a multiple of 4, or odd height, or width >= 8; distinct by plane contents.",
+            rule: "size_grid enumerates every width x height in the stated box with seven plane-content families (chroma planes that average exactly 128 without being colourless; uniform planes with one to three deviating samples, mostly in the last or first column / row; hash bytes, extremes, per-position-unique pattern, independently structured planes, and planes assembled from a few repeated row templates over one-to-three-value alphabets so that equal neighbouring groups / rows / planes and special values occur all the time); random_sizes draws size and content from the proptest tape. Oracle: per-pixel BT.601 integer model of luma (x,y) with chroma (x/2,y/2), output length 4wh, no panic; empty picture -> empty output. Non-trivial = width not a multiple of 4, or odd height, or width >= 8; distinct by plane contents.",
             assumptions: vec!["planes have the documented sizes (chroma ceil(w/2) x ceil(h/2)); other shapes are outside the property".into()],
             exhaustive,
             extra,
@@ -424,6 +507,18 @@ pub fn replay(suite: &str, case: &Value) -> Option<Verdict> {
             Some(match check_picture_at(w, &y, &cb, &cr, offs) {
                 Ok(()) => Verdict::pass(true, 0),
                 Err(m) => Verdict::fail(m),
+            })
+        }
+        "every_width_and_height_to_4200" | "same_buffers_other_widths" => {
+            let mut acc = Acc::default();
+            if suite == "same_buffers_other_widths" {
+                sequence_item(case["seed"].as_u64().unwrap_or(1), case["sequence"].as_u64()?, &mut acc);
+            } else {
+                sweep_item(case["seed"].as_u64().unwrap_or(1), case["sweep"].as_u64()?, &mut acc);
+            }
+            Some(match acc.failure {
+                Some((_, _, m, _)) => Verdict::fail(m),
+                None => Verdict::pass(true, 0),
             })
         }
         "large_area" => {
